@@ -75,14 +75,23 @@ func trackedUpload(t *sim.Tape, reg *[]*sim.SrcStats, d digest.Digest, data []by
 		sc.ErrAt = t.Choose(len(sc.Chunks()) + 1)
 		sc.Err = status.Error(codes.Unavailable, "upload source: injected failure")
 	}
+	var b buffer.Buffer
 	if t.Chance(1, 2) {
 		src := sim.NewChunkSource("upload."+tag, sc)
 		*reg = append(*reg, src.St)
-		return buffer.NewCASBufferFromChunkReader(d, src, buffer.UserProvided)
+		b = buffer.NewCASBufferFromChunkReader(d, src, buffer.UserProvided)
+	} else {
+		src := sim.NewReaderSource("upload."+tag, sc)
+		*reg = append(*reg, src.St)
+		b = buffer.NewCASBufferFromReader(d, src, buffer.UserProvided)
 	}
-	src := sim.NewReaderSource("upload."+tag, sc)
-	*reg = append(*reg, src.St)
-	return buffer.NewCASBufferFromReader(d, src, buffer.UserProvided)
+	if t.Chance(1, 4) {
+		// the shape replicating decorators hand down: one half of a stream
+		// clone with a task attached that feeds the other half to a sink
+		b1, b2 := b.CloneStream()
+		b = b1.WithTask(func() error { return b2.IntoWriter(io.Discard) })
+	}
+	return b
 }
 
 // consumeTracked consumes b in one of several ways; all of them end with the
